@@ -276,4 +276,25 @@ theorem pushonly_agree (stack : List Bytes) (st' : Consensus.State)
       have := no_reserved chk cfg _ _ _ _ _ ops rfl h hwo hle
       rw [this]
       rfl
+
+/-! ### canonical pushes -/
+
+theorem constEncoder_short : ∀ e ∈ constEncoder, e.1.length ≤ 1 := by decide +kernel
+
+theorem sizedEncoder_find : ∀ n, 1 ≤ n → n ≤ 75 → sizedEncoder.find? (·.1 = n) = some (n, n) := by decide +kernel
+
+/-- `compile_push_data` of 2..75 bytes is the direct push `len ‖ data` = `CScript() << data` -/
+theorem compilePushData_direct (d : Bytes) (h2 : 2 ≤ d.length) (h75 : d.length ≤ 75) :
+    compilePushData d = .ok (pushData d) := by
+  unfold compilePushData pushData
+  have hc : constEncoder.find? (·.1 = d) = none := by
+    apply List.find?_eq_none.mpr
+    intro e he
+    have := constEncoder_short e he
+    intro heq
+    simp only [decide_eq_true_eq] at heq
+    rw [heq] at this; omega
+  have hlt : d.length < OP_PUSHDATA1 := by simp only [OP_PUSHDATA1]; omega
+  simp only [hc, sizedEncoder_find d.length (by omega) h75, hlt, if_true]
+
 end Pycoin.VM
